@@ -50,6 +50,11 @@ def typeorder(t1, t2):
     * typeorder(t1, t2) is Order.MORE   if t1 is more general than t2
     * typeorder(t1, t2) is Order.NONE   if they cannot be compared
     """
+    if t1 is Any:
+        t1 = object
+    if t2 is Any:
+        t2 = object
+
     if t1 == t2:
         return Order.SAME
 
